@@ -14,10 +14,14 @@ import (
 	"verifharness/internal/vstat"
 )
 
-func genWCase(t *rapid.T, maxLen int, clock bool) WCase {
+func genWCase(t *rapid.T, maxLen int, clock bool, faults ...bool) WCase {
+	fault := len(faults) > 0 && faults[0]
 	kinds := []string{"start", "start", "start", "start", "start", "ungate", "ungate", "cancel", "cancel", "put", "put", "putmany", "putmany", "casok", "casok", "casbad", "delete", "delete", "create", "create"}
 	if clock {
 		kinds = append(kinds, "advance")
+	}
+	if fault {
+		kinds = append(kinds, "fault", "fault")
 	}
 	n := rapid.IntRange(1, maxLen).Draw(t, "len")
 	var ops []WOp
@@ -99,7 +103,12 @@ func RunC07Redis(c WCase) (info WInfo, v *vstat.Violation, infra error) {
 		}
 		return true
 	}
-	env := &WEnv{Name: "redis", St: st, Now: time.Now, Advance: func(d time.Duration) { m.FastForward(d) }, Settle: settle}
+	env := &WEnv{Name: "redis", St: st, Now: time.Now, Advance: func(d time.Duration) { m.FastForward(d) }, Settle: settle,
+		Fault: func() {
+			m.SetError("LOADING the harness makes every command fail for a moment")
+			time.Sleep(180 * time.Millisecond) // longer than the longest poll gap: every parked waiter polls into the fault
+			m.SetError("")
+		}}
 	info, v = RunWait(c, env)
 	return
 }
@@ -110,7 +119,7 @@ func TestC07RedisRapid(t *testing.T) {
 		n := rapid.IntRange(1, 8).Draw(rt, "batch")
 		batch := make([]WCase, n)
 		for i := range batch {
-			batch[i] = genWCase(rt, 10, true)
+			batch[i] = genWCase(rt, 10, true, true)
 		}
 		type res struct {
 			info  WInfo
